@@ -40,7 +40,11 @@ pub mod ext_mpsc {
     pub uninterp spec fn w_sync_sent<T>(s: &mpsc::SyncSender<T>) -> bool;
     pub assume_specification<T> [mpsc::Sender::<T>::send] (s: &mpsc::Sender<T>, t: T) -> (res: Result<(), mpsc::SendError<T>>)
         ensures res is Ok ==> w_sent(s);
+    /// may-call side for the BLOCKING send on a bounded queue (a verification device, DESIGN 2.12): lets the owner state what
+    /// must have happened before a thread may park in it (calloop: the loop has been woken, or nobody will ever make room)
+    pub uninterp spec fn may_block_send<T>(s: &mpsc::SyncSender<T>) -> bool;
     pub assume_specification<T> [mpsc::SyncSender::<T>::send] (s: &mpsc::SyncSender<T>, t: T) -> (res: Result<(), mpsc::SendError<T>>)
+        requires may_block_send(s),
         ensures res is Ok ==> w_sync_sent(s);
     pub assume_specification<T> [mpsc::SyncSender::<T>::try_send] (s: &mpsc::SyncSender<T>, t: T) -> (res: Result<(), mpsc::TrySendError<T>>)
         ensures res is Ok ==> w_sync_sent(s);
